@@ -284,9 +284,21 @@ def rule_r6(ctx):
         raise AnalysisBroken("canonicaliser passes not recognised (%d facts)" % checked)
 
 
+def rule_r7(ctx):
+    from .. import numconv
+    r = ctx.rule("C19.R7", "T12", "well-formed port: the number strtol extracted from the port text (nni_get_port_by_name, which "
+                 "nni_url_parse and the resolvers use) is used only when the conversion consumed the whole text -- `80abc` and "
+                 "`8080:9090` are not numeric ports", floor=1)
+    fns = [f for f in ctx.prog.functions if f.name == "nni_get_port_by_name"]
+    if not fns:
+        raise AnalysisBroken("nni_get_port_by_name not in the build")
+    numconv.check(ctx, r, fns, 1)
+
+
 def run(ctx):
     ctx.guard(rule_r1)
     ctx.guard(rule_r2)
     ctx.guard(rule_r3)
     ctx.guard(rule_r5)
     ctx.guard(rule_r6)
+    ctx.guard(rule_r7)
